@@ -104,7 +104,7 @@ def run_harness(ctx, args, outdir, shards=1, timeout=3000, kvh=None, env=None, o
         cmd = [kvh] + args + ["--out", od, "--shard", str(s), "--shards", str(shards), "--tier", ctx.tier]
         procs.append((subprocess.Popen(cmd, env=e, stdout=subprocess.PIPE, stderr=subprocess.PIPE, text=True), od, cmd))
     ctx.cmds.append("kvh " + " ".join(args) + " (x%d shards)" % shards)
-    res = {"findings": [], "stats": [], "traces": {}, "dirs": []}
+    res = {"findings": [], "stats": [], "traces": {}, "dirs": [], "stderr": []}
     deadline = time.time() + timeout
     for p, od, cmd in procs:
         try:
@@ -116,6 +116,7 @@ def run_harness(ctx, args, outdir, shards=1, timeout=3000, kvh=None, env=None, o
         if p.returncode != 0:
             raise Infra("harness failed (%d): %s\n%s" % (p.returncode, " ".join(cmd), (so + se)[-3000:]))
         res["dirs"].append(od)
+        res["stderr"].append(se)
         st = json.load(open(os.path.join(od, "stats.json")))
         if st.get("infra"):
             raise Infra("harness reported: " + "; ".join(st["infra"][:5]))
@@ -146,10 +147,11 @@ def _prep_spec_dir(d, cfg_name, overrides, extra_files=None):
         shutil.copy(f, d)
     cfg = open(os.path.join(SPEC, "cfg", cfg_name)).read()
     for k, v in (overrides or {}).items():
-        if re.search(r"^CONSTANT\s+%s\s*=" % re.escape(k), cfg, re.M):
-            cfg = re.sub(r"^CONSTANT\s+%s\s*=.*$" % re.escape(k), "CONSTANT %s = %s" % (k, v), cfg, flags=re.M)
+        sep = " " if str(v).startswith("<-") else " = "
+        if re.search(r"^CONSTANT\s+%s\s*(=|<-)" % re.escape(k), cfg, re.M):
+            cfg = re.sub(r"^CONSTANT\s+%s\s*(=|<-).*$" % re.escape(k), "CONSTANT %s%s%s" % (k, sep, v), cfg, flags=re.M)
         else:
-            cfg += "\nCONSTANT %s = %s\n" % (k, v)
+            cfg += "\nCONSTANT %s%s%s\n" % (k, sep, v)
     open(os.path.join(d, "run.cfg"), "w").write(cfg)
     for src, dst in (extra_files or {}).items():
         shutil.copy(src, os.path.join(d, dst))
